@@ -7,10 +7,11 @@ Model/RtpPacket.lean (ReadPacket / receive / the RTP header parser),
 Model/Pipeline.lean (FLV and TS muxer workers).
 -/
 import IpcHub.Lemmas.ContainTotal
+import IpcHub.Lemmas.DepackRound265
 import IpcHub.Model.PipelineInst
 import IpcHub.Spec.Packetise
 namespace IpcHub.Props.C07
-open IpcHub.Depack IpcHub.Packetise IpcHub.Pipeline
+open IpcHub.Depack IpcHub.Packetise IpcHub.Pipeline IpcHub.DepackRound
 
 /-- The containment facts regenerated from /repo on every run: the guards of the cache
     classifiers, of ReadPacket / receive and of the FLV / TS packetizers, where each converter
@@ -178,6 +179,85 @@ theorem c07_pipeline_survives (spsOk : Bytes → Bool) (ascOk hasTs : Bool) (s :
     let s' := (Pipeline.step Depack.genCfg Pipeline.genCfg spsOk ascOk hasTs s i).1
     s'.demux.alive = s.demux.alive ∧ s'.flv.alive = s.flv.alive ∧ s'.ts.alive = s.ts.alive :=
   step_alive _ c07_gen_cfg_safe.1 _ c07_gen_cfg_safe.2.2.2.1 c07_gen_cfg_safe.2.2.2.2.1 spsOk ascOk hasTs s i
+
+theorem c07_round_cfg : RoundCfg Depack.genCfg := by
+  refine ⟨?_, ?_, ?_, ?_, ?_⟩ <;> decide
+
+/-- C07 (recovery).  Take ANY ready depacketizer state, feed it ANY list of video packets
+    `bad` with arbitrary payload bytes, sequence numbers and timestamps (truncated or oversized
+    aggregation / fragmentation units, empty payloads, interrupted fragmented units …): no call
+    panics, and for EVERY well-formed stream sent afterwards (any packetisation decisions, as in
+    C06) the frames handed on are exactly its units — nothing lost, nothing spliced with the
+    garbage, same clock base.  H.264 (`_partial` only for the filler exclusion of C06) and H.265. -/
+theorem c07_recovers_h264_partial (spsOk : Bytes → Bool) (st : VSt) (bad : List Pkt) (items : List Item) (seq0 : UInt16)
+    (hr : st.ready = true) (hl : ∀ it ∈ items, legal264 it = true ∧ itemNoFiller it = true) :
+    let st1 := (vRun Depack.genCfg spsOk .h264 st bad).1
+    (vRun Depack.genCfg spsOk .h264 st bad).2.2 ≠ .panic ∧
+    (vRun Depack.genCfg spsOk .h264 st1 (packets264 seq0 items)).2 = ((units items).map (frameOf st.base), .ok) := by
+  have hk := vRun_keeps Depack.genCfg spsOk .h264 bad st hr
+  refine ⟨?_, ?_⟩
+  · -- no step panics
+    have : ∀ (ps : List Pkt) (s : VSt), (vRun Depack.genCfg spsOk .h264 s ps).2.2 ≠ .panic := by
+      intro ps
+      induction ps with
+      | nil => intro s; simp [vRun]
+      | cons p ps ih =>
+        intro s
+        have hb := h264Step_benign Depack.genCfg c07_gen_cfg_safe.1 spsOk s p
+        have hnp : ¬ (vStep Depack.genCfg spsOk .h264 s p).status = .panic := by
+          intro h; simp only [vStep] at h; rw [h] at hb; exact hb
+        simp only [vRun, hnp, if_false]
+        exact ih _
+    exact this bad st
+  · obtain ⟨st', h, _⟩ := h264_roundtrip Depack.genCfg c07_round_cfg spsOk items _ seq0 hk.ready hl
+    rw [h, hk.base]
+
+theorem c07_recovers_h265 (spsOk : Bytes → Bool) (st : VSt) (bad : List Pkt) (items : List Item) (seq0 : UInt16)
+    (hr : st.ready = true) (hl : ∀ it ∈ items, legal265 it = true) :
+    let st1 := (vRun Depack.genCfg spsOk .h265 st bad).1
+    (vRun Depack.genCfg spsOk .h265 st bad).2.2 ≠ .panic ∧
+    (vRun Depack.genCfg spsOk .h265 st1 (packets265 seq0 items)).2 = ((units items).map (frameOf st.base), .ok) := by
+  have hk := vRun_keeps Depack.genCfg spsOk .h265 bad st hr
+  refine ⟨?_, ?_⟩
+  · have : ∀ (ps : List Pkt) (s : VSt), (vRun Depack.genCfg spsOk .h265 s ps).2.2 ≠ .panic := by
+      intro ps
+      induction ps with
+      | nil => intro s; simp [vRun]
+      | cons p ps ih =>
+        intro s
+        have hb := h265Step_benign Depack.genCfg c07_gen_cfg_safe.1 spsOk s p
+        have hnp : ¬ (vStep Depack.genCfg spsOk .h265 s p).status = .panic := by
+          intro h; simp only [vStep] at h; rw [h] at hb; exact hb
+        simp only [vRun, hnp, if_false]
+        exact ih _
+    exact this bad st
+  · obtain ⟨st', h, _⟩ := h265_roundtrip Depack.genCfg c07_round_cfg spsOk items _ seq0 hk.ready hl
+    rw [h, hk.base]
+
+/-- non-vacuity: garbage that leaves a fragment buffer behind, then a fragmented unit -/
+example :
+    let bad : List Pkt := [⟨5, 1, false, [0x7c, 0x85, 0xaa]⟩, ⟨9, 1, false, [0x78, 0x00, 0x09, 0x65]⟩, ⟨10, 1, false, []⟩]
+    let items : List Item := [.frag 3000 true [0x41, 1, 2, 3] [1, 1]]
+    (∀ it ∈ items, legal264 it = true ∧ itemNoFiller it = true) ∧
+    (vRun Depack.genCfg (fun _ => true) .h264 { ready := true } bad).1.frags.length = 1 := by
+  decide
+
+/-- C07 (recovery of the parameter sets): whatever an H.264 depacketizer has stored as SPS / PPS
+    — nothing, or garbage from a damaged packet or a hostile sprop — and whether or not the SDP
+    gave it a picture size, the sender's next SPS (one the decoder accepts) and PPS, sent as
+    single NAL unit packets, make it ready: from then on `c07_recovers_h264_partial` applies. -/
+theorem c07_parameter_sets_recover (spsOk : Bytes → Bool) (st : VSt) (s1 s2 : UInt16) (t1 t2 : UInt32) (m1 m2 : Bool)
+    (b c : UInt8) (bs cs : Bytes) (hb : b &&& 0x1f = 7) (hc : c &&& 0x1f = 8) (hok : spsOk (b :: bs) = true) :
+    (vRun Depack.genCfg spsOk .h264 st [⟨s1, t1, m1, b :: bs⟩, ⟨s2, t2, m2, c :: cs⟩]).1.ready = true :=
+  ps_recover264 Depack.genCfg c07_round_cfg (by decide) spsOk st s1 s2 t1 t2 m1 m2 b c bs cs hb hc hok
+
+/-- C07 (other streams): the converter state is per stream — stepping stream `k` of any collection
+    of streams with any packet leaves every other stream's state as it was (structural: each
+    `media.Stream` owns its demuxer, muxers and caches; checked on the real code by the harness's
+    second stream). -/
+theorem c07_other_streams (spsOk : Bytes → Bool) (ascOk hasTs : Bool) (ss : List St) (k j : Nat) (i : In) (hjk : j ≠ k) :
+    (ss.modify k (fun s => (Pipeline.step Depack.genCfg Pipeline.genCfg spsOk ascOk hasTs s i).1))[j]? = ss[j]? := by
+  simp [List.getElem?_modify, hjk.symm]
 
 private def pk (s : UInt16) (b : Bytes) : In := .video ⟨s, 1000, false, b⟩
 
